@@ -148,6 +148,14 @@ def _run_one(s):
         return {"error": list(r)}
     tr["batches"] = r[1]
     tr["len"] = len(loader)
+    if kind == "unique" and s.get("tb2"):
+        # history: another trunk batch size after the first epoch, then one more pass over the SAME loader
+        loader.dataset.trunk_batch_size = s["tb2"]
+        r = watched(it)
+        if r[0] != "ok":
+            return {"error": list(r)}
+        tr["batches2"] = r[1]
+        tr["len2"] = len(loader)
     return tr
 
 
